@@ -159,8 +159,8 @@ func (r *exprRenderer) render(e *AExpr, path string) {
 		r.sb.WriteString("\"")
 		for i, p := range e.Es {
 			pp := sub(fmt.Sprintf("es.%d", i+1))
-			if p.K == "lit" {
-				r.ext[pp] = &ExprExt{Kind: "tlit", Full: [2]int{r.sb.Len(), r.sb.Len() + len(fmt.Sprint(p.V))}}
+			if p.K == "text" {
+				r.ext[pp] = &ExprExt{Kind: "text", Full: [2]int{r.sb.Len(), r.sb.Len() + len(fmt.Sprint(p.V))}}
 				r.sb.WriteString(fmt.Sprint(p.V))
 			} else {
 				r.sb.WriteString("${")
